@@ -22,6 +22,10 @@ class Family:
     def term(self, I, heap, k):
         raise NotImplementedError
 
+    def deps(self, I, heap):
+        """the immutable payload objects the family reads from `heap`"""
+        raise NotImplementedError
+
 
 class MapFamily(Family):
     """values of a float map (0 outside its domain)"""
@@ -33,6 +37,9 @@ class MapFamily(Family):
         v = self.get(k)
         return z3.If(self.dom(k), v.v, z3.RealVal(0))
 
+    def deps(self, I, heap):
+        return [self.get, self.dom]
+
 
 def heap_tag(I, heap):
     if heap is None or heap is I.heap:
@@ -41,14 +48,21 @@ def heap_tag(I, heap):
 
 
 def gsum(I, fam, heap=None):
-    """the real constant standing for SUM_k fam.term(heap, k)"""
-    key = (fam.ident(), heap_tag(I, heap))
-    if key not in I.gsums:
-        c = z3.Real("SUM[%s@%s]" % key)
-        h = I.heap if heap is None else heap
+    """the real constant standing for SUM_k fam.term(heap, k).
+    Two heaps in which every location the family reads holds the same (immutable) closure/value objects
+    denote the same sum, so the constant is keyed by the identity of those objects."""
+    h = I.heap if heap is None else heap
+    deps = fam.deps(I, h)
+    sig = tuple(id(d) for d in deps)
+    table = I.__dict__.setdefault("_gsum_sigs", {})
+    key = (fam.ident(), sig)
+    if key not in table:
+        n = len([1 for k in table if k[0] == fam.ident()])
+        c = z3.Real("SUM[%s@s%d]" % (fam.ident(), n))
         snap = h if h is not I.heap else I.snapshot_tagged()
-        I.gsums[key] = (c, fam, snap)
-    return I.gsums[key][0]
+        table[key] = (c, deps)            # deps kept alive: ids stay unique
+        I.gsums[(fam.ident(), "s%d" % n)] = (c, fam, snap)
+    return table[key][0]
 
 
 def gsum_entry(I, const):
